@@ -132,6 +132,22 @@ Theorem C04_end_to_end : forall t bc ia ly bi vis vrn vfc vla vti vcx vcy,
 Proof. exact chain_cell. Qed.
 Print Assumptions C04_end_to_end.
 
+(* -------- the tagger keeps no state between reads: digest of a list = the single-read digest of each read *)
+Theorem C04_digest_stateless : forall qs, (forall q, In q qs -> exists x, digest_read q = Ok x) ->
+  digest (map (fun q => Some (q, false)) qs) = (map standalone qs, None).
+Proof. exact digest_stateless. Qed.
+Print Assumptions C04_digest_stateless.
+
+(* for ANY list (None entries, already tagged or failing reads in between): a read that ends up tagged carries
+   exactly the name and tags of its own stand-alone digest *)
+Theorem C04_digest_pointwise : forall reads o e, digest reads = (o, e) ->
+  Forall2 (fun r x => match x with
+                      | Tagged n t => exists q sm, r = Some (q, sm) /\ digest_read q = Ok (n, t)
+                      | _ => True
+                      end) reads o.
+Proof. exact digest_pointwise. Qed.   (* tagged_alone unfolds to the predicate written out above *)
+Print Assumptions C04_digest_pointwise.
+
 (* -------- non-vacuity: a store as NLAIII384C8U3 writes it (instrument still carries the '@' of the FASTQ line,
    UMI qualities 'A~#' encoded by phred_enc) satisfies the hypotheses; the chain computes the expected tags *)
 Definition ex_store : store :=
